@@ -41,11 +41,14 @@ INFO = dict(
          "(kind, n, stored entries, operation, arguments); non-trivial = the graph has at least one edge",
     partial=["unbounded correctness of the DFS cycle detector is not proved (proved for every graph of the two "
              "small domains, which is the property's quantifier; larger graphs: correspondence + oracle)",
-             "Kruskal reference in the model has no optimality theorem (MST weight is decided by the python Prim "
-             "oracle and the model's Kruskal agreeing with scipy)",
+             "minimum spanning trees: the model's Kruskal reference has no optimality theorem (decided by the python "
+             "Prim oracle and the model's Kruskal both agreeing with scipy on every case)",
              "PointTree.from_mask component pruning: model + correspondence + oracle, no theorem",
-             "find_shortest_path cost / (v,v) and find_path (v,v) are recorded known findings (pinned by "
-             "test_find_shortest_path / test_find_path); the model carries the coded formula"],
+             "find_shortest_path cost, find_shortest_path(v,v) and find_path(v,v) are recorded known findings (pinned "
+             "by test_find_shortest_path / test_find_path): refuted by witness in Lean, the model carries the coded "
+             "formula, the repaired statement is shortest_route_weight_is_distance",
+             "quick tier samples masks / start-end pairs per small graph (every graph, every root of every candidate "
+             "tree and every mask of every arborescence are always run); the thorough tier runs every combination"],
     assumptions=["edge weights are positive integers (exact in float64)",
                  "a single-vertex Tree is outside menpo's Tree domain by design ('a tree cannot have isolated "
                  "vertices'); minimum spanning trees are only defined for connected graphs"],
@@ -329,6 +332,41 @@ def guarded(f, *a, **k):
         return "exc", type(e).__name__
 
 
+def through_menpo(e):
+    """did the exception pass through menpo code (then the implementation raised it; otherwise it is a harness bug)"""
+    import os
+    root = os.path.realpath(common.REPO) + os.sep
+    tb = e.__traceback__
+    while tb is not None:
+        if os.path.realpath(tb.tb_frame.f_code.co_filename).startswith(root):
+            return True
+        tb = tb.tb_next
+    return False
+
+
+def build_checked(ctx, g, variant, point):
+    return build(g, variant, point)
+
+
+def safely(ctx, f, *a, **k):
+    """run one check; an exception raised inside the implementation where the property needs an answer is an
+    oracle failure with a replay, never a harness crash"""
+    try:
+        return f(ctx, *a, **k)
+    except common.Infra:
+        raise
+    except Exception as e:
+        if not through_menpo(e):
+            raise
+        g = next((x for x in a if isinstance(x, G)), None)
+        rp = g.rp() if g is not None else {}
+        rp["check"] = f.__name__
+        rp["args"] = [x if isinstance(x, (int, str, bool, tuple, list)) else type(x).__name__ for x in a if not isinstance(x, (G, Batch))]
+        ctx.fail("C14/%s/exception" % f.__name__, "raises:" + type(e).__name__,
+                 "%s: the implementation raised %s: %s" % (f.__name__, type(e).__name__, str(e)[:160]), rp)
+        return None
+
+
 # ----------------------------------------------------------------------------- the per-graph checks
 
 class Batch(object):
@@ -370,7 +408,8 @@ def check_basic(ctx, b, g, variant, point, rng=None, full=True):
     ctx.check(adj == [sorted(g.out[v]) for v in range(n)], site, "adjacency-list",
               "adjacency list %r vs edges %r" % (adj, sorted(exp_edges)), rp)
     par = []
-    for v in range(n):
+    vs = range(n) if full or rng is None or n <= 2 else sorted(rng.sample(range(n), 2))   # quick: 2 seeded vertices
+    for v in vs:
         if g.directed:
             ch = sorted(ints(obj.children(v)))
             pa = sorted(ints(obj.parents(v)))
@@ -415,12 +454,18 @@ def check_basic(ctx, b, g, variant, point, rng=None, full=True):
         if arb and not it:
             oracle_tree_ok = False
             ctx.fail("C14/is_tree/directed", "rejects-arborescence", "is_tree() is False for a rooted tree", rp)
-    impl = "ok edges=%s;adj=%s;iso=%s;par=%s;cyc=%d;" % (fe(sorted(ed)), fll(adj), fl(iso), fll(par), cyc)
+    impl = "ok edges=%s;adj=%s;iso=%s;" % (fe(sorted(ed)), fll(adj), fl(iso))
 
-    def cmp(reply, impl=impl, it=it, ok=oracle_tree_ok, directed=g.directed):
+    def cmp(reply, impl=impl, it=it, ok=oracle_tree_ok, directed=g.directed, vs=list(vs), par=par, cyc=cyc):
         if not reply.startswith(impl):
             return "model %r vs implementation %r" % (reply[:300], impl[:300])
         f = dict(x.split("=") for x in reply[3:].split(";"))
+        mpar = f["par"].split("|")
+        for v, pa in zip(vs, par):
+            if mpar[v] != fl(pa):
+                return "parents/neighbours of %d: model %s vs implementation %s" % (v, mpar[v], fl(pa))
+        if f["cyc"] != str(int(cyc)):
+            return "has_cycles: model %s vs implementation %d" % (f["cyc"], cyc)
         if not directed and f["sym"] != "1":
             return "model says the adjacency is not symmetric"
         if ok and f["tree"] != str(int(it)):
@@ -633,33 +678,40 @@ def check_tree_ctor(ctx, b, g, r, point, via):
             b.add("tree", "%s %d" % (g.wire(), r), lambda reply: None if reply.startswith("err") else
                   "model accepts the tree, implementation refuses", rp)
         return None
-    # relations of an accepted tree
+    # relations of an accepted tree (an exception inside a query is an oracle failure, not a harness crash)
     site = "C14/tree-relations"
     n = g.n
-    pred = [None if x is None else int(x) for x in t.predecessors_list]
-    depth = []
-    for v in range(n):
-        sd, dv = guarded(t.depth_of_vertex, v)
-        depth.append(int(dv) if sd == "ok" else None)
-        if not exp:
-            continue
-        ch = ints(t.children(v))
-        ctx.check(sd == "ok", site, "depth-raises", "depth_of_vertex(%d) raised %s" % (v, dv), dict(rp, vertex=v))
-        ctx.check(all(t.parent(c) == v for c in ch) and (v == r or v in ints(t.children(t.parent(v)))), site, "parent-children",
-                  "parent/children are not inverse at vertex %d" % v, dict(rp, vertex=v))
-        ctx.check((t.parent(v) is None) == (v == r) and t.parent(v) == pred[v], site, "parent", "parent(%d) = %r" % (v, t.parent(v)), dict(rp, vertex=v))
-        if sd == "ok":
-            ctx.check(dv == (0 if v == r else t.depth_of_vertex(t.parent(v)) + 1), site, "depth",
-                      "depth(%d) = %r is not depth(parent) + 1" % (v, dv), dict(rp, vertex=v))
-        ctx.check(bool(t.is_leaf(v)) == (len(ch) == 0), site, "leaf", "is_leaf(%d) inconsistent with children" % v, dict(rp, vertex=v))
-    leaves = ints(t.leaves)
-    if exp:
-        ctx.check(leaves == [v for v in range(n) if not g.out[v]] and t.n_leaves == len(leaves), site, "leaves", "leaves = %r" % leaves, rp)
-        if all(x is not None for x in depth):
-            ctx.check(int(t.maximum_depth) == max(depth) and
-                      all(ints(t.vertices_at_depth(k)) == [v for v in range(n) if depth[v] == k] and
-                          t.n_vertices_at_depth(k) == depth.count(k) for k in range(max(depth) + 2)),
-                      site, "depth-levels", "maximum_depth / vertices_at_depth inconsistent with depth_of_vertex", rp)
+    pred, depth, leaves = [], [], []
+    try:
+        pred = [None if x is None else int(x) for x in t.predecessors_list]
+        for v in range(n):
+            sd, dv = guarded(t.depth_of_vertex, v)
+            depth.append(int(dv) if sd == "ok" else None)
+            if not exp:
+                continue
+            ch = ints(t.children(v))
+            ctx.check(sd == "ok", site, "depth-raises", "depth_of_vertex(%d) raised %s" % (v, dv), dict(rp, vertex=v))
+            pv = t.parent(v)
+            ctx.check(all(t.parent(c) == v for c in ch) and (v == r or (pv is not None and v in ints(t.children(pv)))),
+                      site, "parent-children", "parent/children are not inverse at vertex %d" % v, dict(rp, vertex=v))
+            ctx.check((pv is None) == (v == r) and pv == pred[v], site, "parent", "parent(%d) = %r" % (v, pv), dict(rp, vertex=v))
+            if sd == "ok" and pv is not None:
+                ctx.check(dv == t.depth_of_vertex(pv) + 1, site, "depth",
+                          "depth(%d) = %r is not depth(parent) + 1" % (v, dv), dict(rp, vertex=v))
+            if sd == "ok" and v == r:
+                ctx.check(dv == 0, site, "depth", "depth(root) = %r" % dv, dict(rp, vertex=v))
+            ctx.check(bool(t.is_leaf(v)) == (len(ch) == 0), site, "leaf", "is_leaf(%d) inconsistent with children" % v, dict(rp, vertex=v))
+        leaves = ints(t.leaves)
+        if exp:
+            ctx.check(leaves == [v for v in range(n) if not g.out[v]] and t.n_leaves == len(leaves), site, "leaves", "leaves = %r" % leaves, rp)
+            if all(x is not None for x in depth):
+                ctx.check(int(t.maximum_depth) == max(depth) and
+                          all(ints(t.vertices_at_depth(k)) == [v for v in range(n) if depth[v] == k] and
+                              t.n_vertices_at_depth(k) == depth.count(k) for k in range(max(depth) + 2)),
+                          site, "depth-levels", "maximum_depth / vertices_at_depth inconsistent with depth_of_vertex", rp)
+    except Exception as e:
+        ok = False
+        ctx.fail(site, "raises:" + type(e).__name__, "a tree query raised %s: %s" % (type(e).__name__, str(e)[:120]), rp)
     if ok:
         b.add("tree", "%s %d" % (g.wire(), r), "ok pred=%s;depth=%s;leaves=%s" % (
             ",".join(fo(x) for x in pred), ",".join(fo(x) for x in depth), fl(leaves)), rp)
@@ -757,28 +809,36 @@ def check_predefined(ctx, rng):
     from menpo.shape import graph_predefined as gp
     site = "C14/graph_predefined"
     for n in (1, 2, 3, 5, 8):
+        try:
+            _predefined_n(ctx, rng, n, gp, PointCloud, PointTree, PointUndirectedGraph, PointDirectedGraph, UndirectedGraph, site)
+        except Exception as e:
+            ctx.fail(site, "raises:" + type(e).__name__, "a predefined-graph constructor or query raised %s" % type(e).__name__, {"n": n})
+
+
+def _predefined_n(ctx, rng, n, gp, PointCloud, PointTree, PointUndirectedGraph, PointDirectedGraph, UndirectedGraph, site):
+    if True:
         pc = PointCloud(points_for(n))
         ctx.case(("predefined", n), nontrivial=n > 1, sample={"op": "graph_predefined", "n": n})
         e = gp.empty_graph(pc)
         ctx.check(e.n_edges == 0 and e.n_vertices == n, site, "empty", "empty_graph has edges", {"n": n})
         c = gp.complete_graph(pc)
-        ctx.check(set(map(tuple, c.edges.tolist())) == set(itertools.combinations(range(n), 2)) if n > 1 else c.n_edges == 0,
+        ctx.check(set(tuple(sorted(e)) for e in c.edges.tolist()) == set(itertools.combinations(range(n), 2)) if n > 1 else c.n_edges == 0,
                   site, "complete", "complete_graph edges", {"n": n})
         ch = gp.chain_graph(pc, graph_cls=PointDirectedGraph, closed=False)
         ctx.check(set(map(tuple, ch.edges.tolist())) == set((i, i + 1) for i in range(n - 1)) if n > 1 else ch.n_edges == 0,
                   site, "chain", "chain_graph edges", {"n": n})
         if n >= 3:
             cc = gp.chain_graph(pc, graph_cls=PointUndirectedGraph, closed=True)
-            ctx.check(set(map(tuple, cc.edges.tolist())) == set((min(i, (i + 1) % n), max(i, (i + 1) % n)) for i in range(n)),
+            ctx.check(set(tuple(sorted(e)) for e in cc.edges.tolist()) == set((min(i, (i + 1) % n), max(i, (i + 1) % n)) for i in range(n)),
                       site, "closed-chain", "closed chain_graph edges", {"n": n})
         if n >= 2:
             r = rng.randrange(n)
             st, s = guarded(gp.star_graph, pc, r, graph_cls=PointTree)
-            if ctx.check(st == "ok", site, "star-raises", "star_graph(root=%d) on %d points raised %s" % (r, n, s), {"n": n, "root": r}):
+            if ctx.check(st == "ok", site, "star-raises", "star_graph(root=%d) on %d points raised %s" % (r, n, s if st != "ok" else ""), {"n": n, "root": r}):
                 ctx.check(set(map(tuple, s.edges.tolist())) == set((r, v) for v in range(n) if v != r) and s.root_vertex == r,
                           site, "star", "star_graph edges", {"n": n, "root": r})
             su = gp.star_graph(pc, r, graph_cls=UndirectedGraph)
-            ctx.check(set(map(tuple, su.edges.tolist())) == set((min(r, v), max(r, v)) for v in range(n) if v != r),
+            ctx.check(set(tuple(sorted(e)) for e in su.edges.tolist()) == set((min(r, v), max(r, v)) for v in range(n) if v != r),
                       site, "star-undirected", "star_graph edges", {"n": n, "root": r})
 
 
@@ -898,39 +958,44 @@ def settle(ctx, b):
             ctx.mismatch(op, why, dict(rp, driver_line=b.lines[int(cid[1:])][:2000]))
 
 
-def exhaustive(ctx, b, rng):
+def exhaustive(ctx, b, rng, deadline=None):
     """both small domains on the real classes.  thorough: every mask, every start/end pair, every root, both
     class variants.  quick: every graph (all queries, cycle/tree tests), every root for every graph with n-1
     edges, every mask of every arborescence, and per graph a seeded sample of 2 masks and 1 start/end pair."""
+    import time
     quick = ctx.quick()
     for kind, n, code, g in small_domain():
+        if deadline is not None and (time.time() > deadline or ctx.failures):
+            return
         variant = ("edges", "dense", "csr")[(code + n) % 3]
-        obj = check_basic(ctx, b, g, variant, bool((code + n) % 2 == 0), rng, full=not quick)
+        obj = safely(ctx, check_basic, b, g, variant, bool((code + n) % 2 == 0), rng, full=not quick)
         if obj is None:
             continue
         if not quick and code % 4 == 0:   # the other class variant / construction route
-            check_basic(ctx, b, g, ("dense", "csr", "edges")[(code + n) % 3], bool((code + n) % 2 == 1), rng)
-        pobj = obj if hasattr(obj, "points") else build(g, "csr", True)
+            safely(ctx, check_basic, b, g, ("dense", "csr", "edges")[(code + n) % 3], bool((code + n) % 2 == 1), rng)
+        pobj = obj if hasattr(obj, "points") else safely(ctx, build_checked, g, "csr", True)
+        if pobj is None:
+            continue
         masks = some_masks(rng, n, None)
         if quick and n > 2:
             masks = rng.sample(masks, 2)
         for m in masks:
-            check_mask(ctx, b, g, pobj, m)
+            safely(ctx, check_mask, b, g, pobj, m)
         prs = [(s, t) for s in range(n) for t in range(n)]
         if quick:
             prs = [rng.choice(prs)] + ([(rng.randrange(n),) * 2] if code % 8 == 0 else [])
         for s, t in prs:
-            check_paths(ctx, b, g, obj, s, t)
-            check_shortest(ctx, b, g, obj, s, t)
+            safely(ctx, check_paths, b, g, obj, s, t)
+            safely(ctx, check_shortest, b, g, obj, s, t)
         if kind == "D":
             roots = range(n) if (not quick or len(g.w) == n - 1) else ([rng.randrange(n)] if code % 4 == 0 else [])
             for r in roots:
-                t = check_tree_ctor(ctx, b, g, r, True, "edges" if (code + r) % 2 else "matrix")
+                t = safely(ctx, check_tree_ctor, b, g, r, True, "edges" if (code + r) % 2 else "matrix")
                 if t is not None and ref_arborescence(g, r):
                     for m in some_masks(rng, n, None):
-                        check_tree_mask(ctx, b, g, r, t, m)
+                        safely(ctx, check_tree_mask, b, g, r, t, m)
         elif g.w and (not quick or code % 2 == 0):
-            check_mst(ctx, b, g, obj, rng.randrange(n), hasattr(obj, "points"))
+            safely(ctx, check_mst, b, g, obj, rng.randrange(n), hasattr(obj, "points"))
 
 
 def with_loops(ctx, b, rng):
@@ -938,7 +1003,7 @@ def with_loops(ctx, b, rng):
         if ctx.quick() and g.n == 3 and g.directed and k % 3:
             continue
         ctx.count("loops-domain")
-        check_basic(ctx, b, g, ("dense", "csr")[k % 2], bool(k % 2), rng, full=not ctx.quick())
+        safely(ctx, check_basic, b, g, ("dense", "csr")[k % 2], bool(k % 2), rng, full=not ctx.quick())
 
 
 def randoms(ctx, b, rng, count):
@@ -947,29 +1012,33 @@ def randoms(ctx, b, rng, count):
         if what == 0:      # queries + masks on a random graph
             g = random_graph(rng, weighted=rng.random() < 0.5)
             point = rng.random() < 0.6
-            obj = check_basic(ctx, b, g, rng.choice(["edges", "dense", "csr"]) if all(x == 1 for x in g.w.values()) and
+            obj = safely(ctx, check_basic, b, g, rng.choice(["edges", "dense", "csr"]) if all(x == 1 for x in g.w.values()) and
                               not any(i == j for i, j in g.w) else rng.choice(["dense", "csr"]), point, rng)
             if obj is None:
                 continue
-            pobj = obj if point else build(g, "csr", True)
+            pobj = obj if point else safely(ctx, build_checked, g, "csr", True)
+            if pobj is None:
+                continue
             for m in some_masks(rng, g.n, 4):
-                check_mask(ctx, b, g, pobj, m)
+                safely(ctx, check_mask, b, g, pobj, m)
         elif what == 1:    # edge lists with duplicates / both orientations / loops
             kind = rng.choice("UD")
             n = rng.randint(1, 12)
             es = [(rng.randrange(n), rng.randrange(n)) for _ in range(rng.randint(0, 2 * n))]
             es += [rng.choice(es) for _ in range(rng.randint(0, 3))] if es else []
-            check_from_edges(ctx, b, rng, kind, n, es)
+            safely(ctx, check_from_edges, b, rng, kind, n, es)
         elif what == 2:    # paths and shortest paths on weighted graphs
             g = random_graph(rng, nmax=rng.choice([7, 7, 16, 28, 40]), weighted=True)
-            obj = build(g, rng.choice(["dense", "csr"]), rng.random() < 0.5)
+            obj = safely(ctx, build_checked, g, rng.choice(["dense", "csr"]), rng.random() < 0.5)
+            if obj is None:
+                continue
             for _ in range(3):
                 s, t = rng.randrange(g.n), rng.randrange(g.n)
-                check_paths(ctx, b, g, obj, s, t, all_paths=g.n <= 7)
-                check_shortest(ctx, b, g, obj, s, t, rng.choice(["auto", "D", "BF", "J", "FW"]),
+                safely(ctx, check_paths, b, g, obj, s, t, all_paths=g.n <= 7)
+                safely(ctx, check_shortest, b, g, obj, s, t, rng.choice(["auto", "D", "BF", "J", "FW"]),
                                rng.random() < 0.25)
             v = rng.randrange(g.n)
-            check_shortest(ctx, b, g, obj, v, v)
+            safely(ctx, check_shortest, b, g, obj, v, v)
         elif what == 3:    # trees: constructor, relations, masks; and non-trees
             g, r = random_tree(rng, weighted=rng.random() < 0.3)
             if rng.random() < 0.25:   # spoil it
@@ -985,36 +1054,76 @@ def randoms(ctx, b, rng, count):
                 else:
                     r = rng.randrange(g.n)
                 g = G("D", g.n, w)
-            t = check_tree_ctor(ctx, b, g, r, True, rng.choice(["edges", "matrix"]) if all(x == 1 for x in g.w.values()) else "matrix")
+            t = safely(ctx, check_tree_ctor, b, g, r, True, rng.choice(["edges", "matrix"]) if all(x == 1 for x in g.w.values()) else "matrix")
             if t is not None and ref_arborescence(g, r):
                 for m in some_masks(rng, g.n, 4):
-                    check_tree_mask(ctx, b, g, r, t, m)
-            check_tree_ctor(ctx, b, g, r, False, "matrix")
+                    safely(ctx, check_tree_mask, b, g, r, t, m)
+            safely(ctx, check_tree_ctor, b, g, r, False, "matrix")
         else:              # minimum spanning trees
             g = random_connected_weighted(rng) if rng.random() < 0.85 else random_graph(rng, nmax=12, weighted=True, kind="U")
             point = rng.random() < 0.5
-            obj = build(g, rng.choice(["dense", "csr"]), point)
-            check_mst(ctx, b, g, obj, rng.randrange(g.n), point)
+            obj = safely(ctx, build_checked, g, rng.choice(["dense", "csr"]), point)
+            if obj is None:
+                continue
+            safely(ctx, check_mst, b, g, obj, rng.randrange(g.n), point)
 
 
 def search(ctx):
-    """directed search after a broken tie: the oracle alone on both small domains (every mask / pair / root) and
-    many more random cases"""
+    """directed search after a broken tie (oracle only): first every mask / pair / root on the graphs of the
+    mismatching cases and on their one-edge neighbours, then both small domains again (fresh samples in the quick
+    tier, everything in the thorough tier), then random cases until the time budget (quick 45 s, thorough 240 s)."""
+    import time
     rng = ctx.rng
-    b = Batch()
-    saved = ctx.tier
-    ctx.tier = "thorough"
-    try:
-        exhaustive(ctx, b, rng)
-        with_loops(ctx, b, rng)
+    t0 = time.time()
+    budget = 45 if ctx.quick() else 240
+    seen = set()
+    for op, why, rp in ctx.mismatches[:12]:
+        if "entries" not in rp:
+            continue
+        g0 = G.from_rp(rp)
+        if g0.key() in seen or g0.n > 8:
+            continue
+        seen.add(g0.key())
+        cand = [g0]
+        for e in (pairs_d(g0.n) if g0.directed else pairs_u(g0.n))[:20]:   # neighbours: toggle one edge
+            w = dict(g0.w)
+            ks = [e] if g0.directed else [e, e[::-1]]
+            for k in ks:
+                if k in w:
+                    del w[k]
+                else:
+                    w[k] = 1
+            cand.append(G(g0.kind, g0.n, w))
+        b = Batch()
+        for g in cand:
+            obj = safely(ctx, check_basic, b, g, "csr", True, None)
+            if obj is None:
+                continue
+            for m in some_masks(rng, g.n, None if g.n <= 5 else 8):
+                safely(ctx, check_mask, b, g, obj, m)
+            for s_ in range(g.n):
+                for t_ in range(g.n):
+                    safely(ctx, check_paths, b, g, obj, s_, t_)
+                    safely(ctx, check_shortest, b, g, obj, s_, t_)
+            for r in range(g.n):
+                if g.directed:
+                    t = safely(ctx, check_tree_ctor, b, g, r, True, "matrix")
+                    if t is not None and ref_arborescence(g, r):
+                        for m in some_masks(rng, g.n, None if g.n <= 5 else 8):
+                            safely(ctx, check_tree_mask, b, g, r, t, m)
+                elif g.w:
+                    safely(ctx, check_mst, b, g, obj, r, True)
         ctx.searched += len(b.lines)
         if ctx.failures:
             return True
+    b = Batch()
+    exhaustive(ctx, b, rng, deadline=t0 + budget)
+    with_loops(ctx, b, rng)
+    ctx.searched += len(b.lines)
+    while not ctx.failures and time.time() - t0 < budget:
         b = Batch()
-        randoms(ctx, b, rng, 1500)
+        randoms(ctx, b, rng, 50)
         ctx.searched += len(b.lines)
-    finally:
-        ctx.tier = saved
     return bool(ctx.failures)
 
 
@@ -1046,25 +1155,29 @@ def run(ctx):
 def replay_case(ctx, b, rp):
     rng = ctx.rng
     if "entries" not in rp:
-        check_from_edges(ctx, b, rng, rp["kind"], rp["n"], [tuple(e) for e in rp["edges"]])
+        safely(ctx, check_from_edges, b, rng, rp["kind"], rp["n"], [tuple(e) for e in rp["edges"]])
         return
     g = G.from_rp(rp)
     point = bool(rp.get("point", False))
-    obj = check_basic(ctx, b, g, rp.get("variant", "dense") if rp.get("variant") != "edges" else "dense", point)
+    obj = safely(ctx, check_basic, b, g, rp.get("variant", "dense") if rp.get("variant") != "edges" else "dense", point)
+    if obj is None:
+        return
     if "mask" in rp and "root" in rp:
-        t = check_tree_ctor(ctx, b, g, rp["root"], True, "matrix")
+        t = safely(ctx, check_tree_ctor, b, g, rp["root"], True, "matrix")
         if t is not None:
-            check_tree_mask(ctx, b, g, rp["root"], t, tuple(rp["mask"]))
+            safely(ctx, check_tree_mask, b, g, rp["root"], t, tuple(rp["mask"]))
     elif "mask" in rp:
-        check_mask(ctx, b, g, build(g, "csr", True), tuple(rp["mask"]))
+        pobj = safely(ctx, build_checked, g, "csr", True)
+        if pobj is not None:
+            safely(ctx, check_mask, b, g, pobj, tuple(rp["mask"]))
     elif "start" in rp:
-        check_paths(ctx, b, g, obj, rp["start"], rp["end"], all_paths=g.n <= 8)
-        check_shortest(ctx, b, g, obj, rp["start"], rp["end"], rp.get("algorithm", "auto"), rp.get("unweighted", False))
+        safely(ctx, check_paths, b, g, obj, rp["start"], rp["end"], all_paths=g.n <= 8)
+        safely(ctx, check_shortest, b, g, obj, rp["start"], rp["end"], rp.get("algorithm", "auto"), rp.get("unweighted", False))
     elif "root" in rp:
         if g.directed:
-            check_tree_ctor(ctx, b, g, rp["root"], point, "matrix")
+            safely(ctx, check_tree_ctor, b, g, rp["root"], point, "matrix")
         else:
-            check_mst(ctx, b, g, obj, rp["root"], point)
+            safely(ctx, check_mst, b, g, obj, rp["root"], point)
 
 
 def replay(ctx, path):
